@@ -122,7 +122,7 @@ def gen_pool(rng, n, guard, behaviours, with_bad):
     return pool
 
 
-def gen_ops(rng, pool, n_ops, nodes, allow_bad, ctxp=0.0, mp=0.2, rp=0.0):
+def gen_ops(rng, pool, n_ops, nodes, allow_bad, ctxp=0.0, mp=0.2, rp=0.0, fp=0.12):
     valid = [i for i, e in enumerate(pool) if e["kind"] != "bad"]
     ops = []
     for _ in range(n_ops):
@@ -133,6 +133,8 @@ def gen_ops(rng, pool, n_ops, nodes, allow_bad, ctxp=0.0, mp=0.2, rp=0.0):
                 op["ctx"] = rng.choice(["cancel", "deadline"])
             if rng.random() < mp:
                 op["m"] = rng.choice(["fail", "boom"])
+            if rng.random() < fp:
+                op["tf"] = rng.choice([7001, 7001, 7001, 7002, 7003, 7004, 7005, 7006, 7007])
             if rng.random() < rp:
                 op["cc"] = rng.choice([1, 1, 2])
                 if rng.random() < 0.5:
@@ -214,6 +216,18 @@ def gen_errors_and_reuse(ctx, cases, n):
             cases.append({"id": len(cases) + 1, "mode": "seq", "flavour": "errors/systematic", "pool": base,
                           "ops": [{"op": "U", "node": "c", "ix": [0, 1]}, {"op": "U", "node": "s", "ix": [2, 3]}]
                           + extra + [call, {"op": "C", "toks": [4]}]})
+    # the innermost client layer fails with each sentinel error / panics; also an inner IO handler
+    # answering core.ErrClosed itself (Z), below pass-through and two-sided handlers
+    fpool = [E("fi", 0), E("fo", 0), E("t"), E("fo", 1, "Z"), E("fi", 1, "A"), E("fo", 2, "A")]
+    for uses in ([0, 1], [0, 1, 2], [2, 4, 5], [1]):
+        for f in sorted(FAULT_RES):
+            cases.append({"id": len(cases) + 1, "mode": "seq", "flavour": "faults/systematic", "pool": fpool,
+                          "ops": [{"op": "U", "node": "c", "ix": uses}, {"op": "U", "node": "s", "ix": [0, 1]},
+                                  {"op": "C", "toks": [3], "tf": f}, {"op": "C", "toks": [4]},
+                                  {"op": "C", "toks": [6], "tf": f, "cc": 1}, {"op": "C", "toks": [7], "cc": 1}]})
+        cases.append({"id": len(cases) + 1, "mode": "seq", "flavour": "faults/systematic", "pool": fpool,
+                      "ops": [{"op": "U", "node": "c", "ix": uses + [3]}, {"op": "C", "toks": [3]},
+                              {"op": "X", "node": "c", "ix": [3]}, {"op": "C", "toks": [4]}]})
     syms = [("U", i) for i in range(4)] + [("X", i) for i in range(4)]
     for name, node, pool in (EXHAUSTIVE_FLAVOURS[0], EXHAUSTIVE_FLAVOURS[3], EXHAUSTIVE_FLAVOURS[2]):
         for ccm in ("", "cc"):
@@ -227,10 +241,10 @@ def gen_errors_and_reuse(ctx, cases, n):
                             c_["ccm"] = ccm
                         ops.append(c_)
                     cases.append({"id": len(cases) + 1, "mode": "seq", "flavour": "reuse/" + name, "pool": pool, "ops": ops})
-    behs = ["P", "P", "P", "P", "S", "E", "A", "F"]
+    behs = ["P", "P", "P", "P", "S", "E", "A", "F", "Z"]
     for _ in range(n):
         pool = gen_pool(rng, rng.randint(2, 6), rng.random() < 0.7, behs, with_bad=False)
-        ops = gen_ops(rng, pool, rng.randint(4, 12), "cs", allow_bad=False, mp=0.4, rp=0.7)
+        ops = gen_ops(rng, pool, rng.randint(4, 12), "cs", allow_bad=False, mp=0.4, rp=0.7, fp=0.35)
         cases.append({"id": len(cases) + 1, "mode": "seq", "flavour": "errors+reuse/random", "pool": pool, "ops": ops})
 
 
@@ -301,6 +315,9 @@ def rs(x):
     return "%s(%d)" % (x[0], x[1])          # err(n): a Go error; werr(n): error bytes, nil error
 
 
+# scripted fault of the innermost client layer -> what the transport answers
+FAULT_RES = {7001: ("err", 9101), 7002: ("err", 9102), 7003: ("err", 9001), 7004: ("err", 9002),
+             7005: ("err", 9103), 7006: ("err", 55), 7007: ("panic",)}
 METH_MARK = {"": None, "echo": None, "fail": 8001, "boom": 8002}
 
 
@@ -339,7 +356,7 @@ def simulate(case, key, nocut=False, cuts=None):
             st[LO] = [h for h in st[LO] if key("O", h) not in ko]
         return "ok"
 
-    def call(toks, ctx=None, meth=None, probe=False):
+    def call(toks, ctx=None, meth=None, fault=None, probe=False):
         """ctx: None live, 9001 cancelled, 9002 deadline passed; meth: None echo, 8001 fail, 8002 boom.
         The property does not mention the context: every installed handler runs, in order, whatever
         its state.  Only the transport (not a plugin) gives up on a done context: it answers
@@ -347,7 +364,7 @@ def simulate(case, key, nocut=False, cuts=None):
         ev = []
 
         def shown(req, ctx):
-            return fmt(([ctx] if ctx else []) + ([meth] if meth else []) + req)
+            return fmt(([ctx] if ctx else []) + ([meth] if meth else []) + ([fault] if fault else []) + req)
 
         def level(li, req, ctx):
             if li == 4:
@@ -357,6 +374,10 @@ def simulate(case, key, nocut=False, cuts=None):
 
         def run(L, chain, pos, li, req, ctx):
             if pos == len(chain):
+                if L == "CO" and fault:
+                    # the innermost layer fails: each handler above was entered once; what it answered
+                    # travels back unchanged through every one of them (nobody retries or swallows)
+                    return FAULT_RES[fault]
                 if L == "CO" and ctx and not nocut:
                     if cuts is not None:
                         cuts.add(len(outs))
@@ -375,6 +396,8 @@ def simulate(case, key, nocut=False, cuts=None):
                 x = ("ok", [hid + 200])
             elif beh == "E":
                 x = ("err", hid)
+            elif beh == "Z":
+                x = ("err", 9101)            # core.ErrClosed
             elif beh == "A":
                 x = run(L, chain, pos + 1, li, req + [hid], ctx)
                 if x[0] == "ok":
@@ -397,7 +420,8 @@ def simulate(case, key, nocut=False, cuts=None):
     outs = []
     for op in case.get("ops", ()):
         if op["op"] == "C":
-            t, r = call(op["toks"], CTX_MARK.get(op.get("ctx") or ""), METH_MARK.get(op.get("m") or ""))
+            t, r = call(op["toks"], CTX_MARK.get(op.get("ctx") or ""), METH_MARK.get(op.get("m") or ""),
+                        op.get("tf") or None)
             outs.append("call:" + t + "=>" + r)
         else:
             outs.append(apply(op))
@@ -431,7 +455,8 @@ def model_line(case, obs, mode="SEQ", ops=None):
     for op in ops:
         if op["op"] == "C":
             toks = (([CTX_MARK[op["ctx"]]] if op.get("ctx") else []) +
-                    ([METH_MARK[op["m"]]] if METH_MARK.get(op.get("m") or "") else []) + list(op["toks"]))
+                    ([METH_MARK[op["m"]]] if METH_MARK.get(op.get("m") or "") else []) +
+                    ([op["tf"]] if op.get("tf") else []) + list(op["toks"]))
             parts += ["C", str(len(toks))] + [str(t) for t in toks]
         else:
             parts += mop(op)
@@ -502,7 +527,8 @@ def first_diff(a_outs, a_final, b_outs, b_final):
 def describe(case):
     def o(op):
         if op["op"] == "C":
-            return "%s%s%s%s" % ({"fail": "CallFail", "boom": "CallBoom"}.get(op.get("m") or "", "Call"), fmt(op["toks"]),
+            return "%s%s%s%s" % ({"fail": "CallFail", "boom": "CallBoom"}.get(op.get("m") or "", "Call"),
+                                 fmt(op["toks"]) + ("[transport fault %d]" % op["tf"] if op.get("tf") else ""),
                                  "[reused context %d%s]" % (op["cc"], "/" + op["ccm"] if op.get("ccm") else "") if op.get("cc") else "", {"cancel": "[ctx cancelled]", "deadline": "[ctx deadline passed]"}.get(op.get("ctx") or "", ""))
         return "%s.%s(%s)" % ("client" if op["node"] == "c" else "service",
                               "Use" if op["op"] == "U" else "Unuse", ",".join("h%d" % (i + 1) for i in op["ix"]))
@@ -906,7 +932,7 @@ def run(ctx):
     cases = []
     maxlen = gen_exhaustive(ctx, cases)
     n_exh = len(cases)
-    beh_all = ["P", "P", "P", "S", "E", "A", "A", "F"]
+    beh_all = ["P", "P", "P", "S", "E", "A", "A", "F", "Z"]
     gen_random(ctx, cases, 1500 if quick else 30000, "random/guarded/behaviours+in-flight", True, beh_all, True)
     gen_random(ctx, cases, 1500 if quick else 30000, "random/any-shape/behaviours+in-flight", False, beh_all, True)
     gen_random(ctx, cases, 1000 if quick else 20000, "random/any-shape/pass-through", False, ["P"], False)
@@ -936,6 +962,8 @@ def run(ctx):
              "service, distinct functions, closures of one literal, method values, two-sided and one-sided struct "
              "plugins); seeded random histories (multi-argument Use/Unuse on client and service, invalid values, "
              "short-circuit / alter / error behaviours, Use/Unuse issued by handlers while a call is inside them); "
+             "the innermost client layer (transport) failing with core.ErrClosed / ErrTimeout / context errors / "
+             "InvalidResponseError / a plain error / a panic, and an inner IO handler answering ErrClosed; "
              "calls of a method that fails or panics (what every handler sees coming back, on both sides); one "
              "ClientContext / context.Context reused across calls with Use/Unuse in between; "
              "calls with an already cancelled / expired context and handlers that cancel the context for next; "
